@@ -178,6 +178,9 @@ type FuncVC struct {
 	params     map[string]Val
 	streamAppend func(r, d, x Term, xv ssa.Value, pos token.Pos)
 	inGlobalInv bool
+	inferred map[*ssa.BasicBlock]*LoopSpec
+	inferCounters bool
+	safetyOnly bool
 	quants []*quantInst
 	mergeWidth int
 	pfxPairs []pfxPair
@@ -508,9 +511,10 @@ func (fv *FuncVC) wf(t Term, gt types.Type) string {
 		z := fv.ilit(0)
 		mx := "true"
 		if fv.Mode == ModeInt {
-			mx = smtAnd(app("<", fv.capOf(t), pow2(62)), app("<", fv.offOf(t), pow2(62)))
+			mx = smtAnd(app("<", fv.capOf(t), pow2(48)), app("<", fv.offOf(t), pow2(48)))
 		} else {
-			lim := intLit(1<<62, SInt, ModeBV)
+			// no sequence exceeds the 2^48-byte address space (stated assumption)
+			lim := intLit(1<<48, SInt, ModeBV)
 			mx = smtAnd(app("bvslt", fv.capOf(t), lim), app("bvslt", fv.offOf(t), lim))
 		}
 		return smtAnd(fv.ile(z, fv.lenOf(t)), fv.ile(fv.lenOf(t), fv.capOf(t)), fv.ile(z, fv.offOf(t)),
